@@ -917,6 +917,13 @@ class Interp:
             return r
         return v
 
+    def ex_Yield(self, e, env):
+        # a generator function under contract (e.g. a @contextmanager): what happens while it is suspended is the model's business
+        r = self.s.hook("yield_value", self, e, env)
+        if r is NotImplemented:
+            raise Unsupported("yield")
+        return r
+
     def ex_BoolOp(self, e, env):
         is_and = isinstance(e.op, ast.And)
         v = None
